@@ -55,6 +55,7 @@ func init() {
 		feTuneRuntime()
 		L, S := len(c06Lexemes), len(feSeparators)
 		return &Check{ID: "C06", Scenarios: []Scenario{
+			{Name: "string-escapes", Count: func(string) int { return c06EscapeCount() }, Run: func(_ string, idx int, r *Result) { c06EscapeRun(idx, r) }},
 			{Name: "strings", Count: c06Strings, Run: func(tier string, idx int, r *Result) {
 				c06Oracle(feString(idx), nil, r)
 			}},
